@@ -17,7 +17,7 @@ CURVES = ['1.3.6.1.4.1.3029.1.5.1', '1.3.6.1.4.1.11591.15.1', '1.2.840.10045.3.1
 # source text the model was written against (sha256 prefix of inspect.getsource)
 PINS = {
     'PubKeyV4.fingerprint': 'b9a66ce211304a2a',
-    'PrivKeyV4.pubkey': '33b42adeb5816d0e',
+    'PrivKeyV4.pubkey': '4612486ea4ab27ef',      # repair 3c1c8c6: refuses OpaquePrivKey material (Model/KeyPackets.v pubkey_pkt = None)
 }
 
 EPOCH = datetime(1970, 1, 1)
@@ -122,6 +122,7 @@ def rfc_fp(body):
 def model_fp(d, toks, kid=False):
     """(the extracted model is slow on 2048-bit numbers: ~25 ms per MPI encoding, so the key id is a separate command)"""
     r = cached(d, 'fp ' + toks).split(' ')
+    # 'body' is the word REFUSED when the model's pubkey() refuses (private packet with opaque material)
     m = {'fp': r[0], 'rfc': r[1], 'publen': unhn(r[2]), 'body': r[3], 'rfcbody': r[4]}
     if kid:
         k = cached(d, 'kid ' + toks).split(' ')
@@ -160,8 +161,8 @@ def check_packet(ctx, d, suite, pkt, case, created=None, nontrivial=True, kid=Tr
     ctx.case(suite, (toks,), nontrivial=nontrivial, sample={'tokens': toks[:200], 'impl_fp': impl})
     ctx.expect_eq(suite, 'fingerprint differs from the model of PubKeyV4.fingerprint', case, impl, m['fp'])
     if int(pkt.pkalg) in (0, 21) and hasattr(pkt.keymaterial, 's2k'):
-        # PRIVATE key of an algorithm PGPy has no class for: outside the property (theorem C18_fp_opaque_private_refuted);
-        # only the correspondence with the model of the code is checked
+        # PRIVATE key of an algorithm PGPy has no class for: outside the property (theorem C18_fp_opaque_private_characterised:
+        # the whole stored material is hashed, pubkey() refuses); only the correspondence with the model of the code is checked
         # (the re-emitted packet keeps the parsed header length although an S2K usage octet is appended: take the body by position)
         full, hdr = bytes(pkt.__bytearray__()), bytes(pkt.header.__bytearray__())
         mt, mb = cached(d, 'body ' + toks).split(' ')
@@ -177,7 +178,11 @@ def check_packet(ctx, d, suite, pkt, case, created=None, nontrivial=True, kid=Tr
     if body[:6 + m['publen']].hex() != m['body']:
         ctx.fail(suite, 'public body is not the first 6+publen octets of the emitted body', case)
     # direct law on what the implementation exports
-    ptag, pbody = exported_pub_body(pkt)
+    ex = outcome(exported_pub_body, pkt)
+    if ex[0] != 'ok':
+        ctx.fail(suite, 'public half of a well-formed key of a supported algorithm is not produced / not exported', dict(case, impl=repr(ex)))
+        return m
+    ptag, pbody = ex[1]
     if rfc_fp(pbody) != impl:
         ctx.fail(suite, 'fingerprint is not SHA-1(0x99 || len || public packet body as exported)', dict(case, exported=pbody.hex(), rfc=rfc_fp(pbody), impl=impl))
     if pbody.hex() != m['rfcbody']:
@@ -466,6 +471,12 @@ def fps(key):
     return [str(key.fingerprint)] + [str(s.fingerprint) for s in key.subkeys.values()]
 
 
+def model_ops(d, ops, toks):
+    """the model after a history: (tag, body hex, fingerprint) or ('REFUSED',) when a step (pubkey() of opaque private material) refuses"""
+    r = d.call('ops ' + ' '.join(list(ops) + ['--', toks])).split(' ')
+    return (unhn(r[0]), r[1], r[2]) if len(r) == 3 else tuple(r)
+
+
 def suite_history(ctx, d, pgpy, names, random_walks):
     """protect / unlock / pubkey / copy / export+import: the fingerprint never moves; the secret packet body the
     implementation emits at each point equals the model's after the same operations"""
@@ -479,10 +490,9 @@ def suite_history(ctx, d, pgpy, names, random_walks):
         if got != base:
             ctx.fail('history', 'fingerprint changed along a history', dict(case, before=base, after=got))
         for i, pkt in enumerate(packets_of_key(key)):
-            mt, mb, mf = d.call('ops ' + ' '.join(ops[i] + ['--', toks0[i]])).split(' ')
             (tag, body), = split_packets(bytes(pkt.__bytearray__()))
             ctx.expect_eq('history', 'emitted key packet after the history differs from model', dict(case, idx=i, pkt=bytes(pkt.__bytearray__()).hex()),
-                          (tag, body.hex(), base[i].lower()), (unhn(mt), mb, mf))
+                          (tag, body.hex(), base[i].lower()), model_ops(d, ops[i], toks0[i]))
 
     for name in names:
         for walk in range(1 + (random_walks if not name.startswith(('rsa', 'dsa')) else min(random_walks, 1))):
@@ -521,10 +531,9 @@ def suite_history(ctx, d, pgpy, names, random_walks):
                         if fps(pub) != base:
                             ctx.fail('history', 'public twin has another fingerprint', {'op': 'history', 'key': name, 'steps': steps + ['pubkey'], 'before': base, 'after': fps(pub)})
                         for i, pkt in enumerate(packets_of_key(pub)):
-                            mt, mb, mf = d.call('ops ' + ' '.join(ops[i] + ['K', '--', toks0[i]])).split(' ')
                             (tag, body), = split_packets(bytes(pkt.__bytearray__()))
                             ctx.expect_eq('history', 'public twin packet differs from model', {'op': 'history', 'key': name, 'steps': steps + ['pubkey'], 'idx': i},
-                                          (tag, body.hex(), base[i].lower()), (unhn(mt), mb, mf))
+                                          (tag, body.hex(), base[i].lower()), model_ops(d, ops[i] + ['K'], toks0[i]))
                     elif st == 'protect':
                         if key.is_protected and not key.is_unlocked:
                             continue
@@ -807,7 +816,9 @@ def suite_attach(ctx, d, pgpy, specs):
 
 def suite_opaque(ctx, d, pgpy):
     """algorithm ids PGPy has no material class for (0, 21).  PUBLIC keys: full property (RFC fingerprint of the whole body, repair
-    e03112d).  PRIVATE keys stay outside the property (whole stored material hashed, empty twin): the model predicts what the code does."""
+    e03112d; fingerprint and export octets unchanged by copy.copy / export + import / PGPKey.pubkey, repair 3c1c8c6).
+    PRIVATE keys: the whole stored material is hashed (outside the property) and pubkey() REFUSES with NotImplementedError
+    (repair 3c1c8c6; before: an empty twin with another fingerprint) - the model predicts both."""
     from pgpy.packet import Packet
     for alg in (21, 0):
         for data in (b'\x00\x09\x01\xff', bytes(range(40)), b''):
@@ -821,15 +832,119 @@ def suite_opaque(ctx, d, pgpy):
                 p = o[1]
                 case = {'op': 'opaque', 'pkt': raw.hex()}
                 m = check_packet(ctx, d, 'opaque', p, case, nontrivial=tag in (6, 14), kid=True)
+                toks = key_tokens(p)
+                fp0 = outcome(lambda: str(p.fingerprint).lower())
+                out0 = outcome(lambda: bytes(p.__bytearray__()).hex())
+                # copy.copy keeps the opaque octets: same fingerprint, same emitted octets (public AND private packets)
+                ctx.case('opaque', (alg, tag, data.hex(), 'copy'), sample={'alg': alg, 'tag': tag, 'data': data.hex()})
+                c = outcome(lambda: (lambda q: (str(q.fingerprint).lower(), bytes(q.__bytearray__()).hex(), type(q).__name__,
+                                                bytes(q.keymaterial.data).hex()))(copy.copy(p)))
+                ctx.expect_eq('opaque', 'copy.copy of a key packet with opaque material: fingerprint / emitted octets / class / material differ from the original',
+                              dict(case, step='copy'), c, ('ok', (fp0[1], out0[1], type(p).__name__, data.hex())) if fp0[0] == out0[0] == 'ok' else ('harness', fp0, out0))
                 if tag in (6, 14):
-                    if str(p.fingerprint).lower() != rfc_fp(body) or bytes(p.__bytearray__()) != raw:
+                    if fp0 != ('ok', rfc_fp(body)) or out0 != ('ok', raw.hex()):
                         ctx.fail('opaque', 'public key of an unknown algorithm: fingerprint is not the RFC value of its body / body not re-emitted', case)
+                    # model history copy, export + import, pubkey, copy: never refused, (tag, body, fingerprint) unchanged
+                    # (theorem C18_fp_opaque_public_invariant); the implementation along the same steps
+                    want = model_ops(d, ['C', 'R', 'K', 'C'], toks)
+                    ctx.expect_eq('opaque', 'model: history of an opaque public key moves its body / fingerprint', dict(case, step='model-history'),
+                                  want, (tag, body.hex(), rfc_fp(body)))
+                    def walk():
+                        q = copy.copy(p)
+                        q = Packet(bytearray(bytes(q.__bytearray__())))
+                        q = copy.copy(q)
+                        (t, b), = split_packets(bytes(q.__bytearray__()))
+                        return (t, b.hex(), str(q.fingerprint).lower())
+                    ctx.case('opaque', (alg, tag, data.hex(), 'history'))
+                    ctx.expect_eq('opaque', 'opaque public key after copy / export + import / copy differs from the model', dict(case, step='history'),
+                                  outcome(walk), ('ok', want))
+                    if tag == 6:
+                        # the transferable-key level: load, copy, pubkey (a public key is its own twin), re-import
+                        def keylevel():
+                            k = pgpy.PGPKey.from_blob(raw)[0]
+                            ck = copy.copy(k)
+                            rk = pgpy.PGPKey.from_blob(bytes(ck))[0]
+                            return (k.pubkey is k, [str(x.fingerprint).lower() for x in (k, ck, rk)], [bytes(x).hex() for x in (k, ck, rk)])
+                        ctx.case('opaque', (alg, tag, data.hex(), 'pgpkey'))
+                        ctx.expect_eq('opaque', 'PGPKey with an opaque public key: copy / pubkey / re-import change fingerprint or export octets', dict(case, step='pgpkey'),
+                                      outcome(keylevel), ('ok', (True, [rfc_fp(body)] * 3, [raw.hex()] * 3)))
                 else:
+                    # pubkey() of an opaque private key: the model refuses (pubkey_pkt = None), the implementation raises NotImplementedError
+                    ctx.case('opaque', (alg, tag, data.hex(), 'twin'), sample={'alg': alg, 'tag': tag, 'model_twin': cached(d, 'twin ' + toks)})
                     tw = outcome(lambda: str(p.pubkey().fingerprint).lower())
-                    mt = model_fp(d, '%d 3e8 %s opaque - pub' % (1 if tag == 7 else 0, hn(alg)))
-                    ctx.expect_eq('opaque', 'twin of an opaque private key differs from the model (empty material)', case, tw, ('ok', mt['fp']))
-    ctx.notes.append('outside the property (theorems C18_fp_opaque_private_characterised / _refuted): a PRIVATE key with algorithm id 0 / 21 hashes its '
-                     'whole stored material, its pubkey() twin has empty material and another fingerprint, re-emission appends an S2K usage octet under a stale header length')
+                    mt = cached(d, 'twin ' + toks).split(' ')
+                    ctx.expect_eq('opaque', 'pubkey() of an opaque private key differs from the model (refusal: NotImplementedError)', dict(case, step='twin'),
+                                  tw, ('raise', 'NotImplementedError') if mt == ['REFUSED'] else ('ok', mt[-1]))
+                    if tw[0] == 'ok' and tw[1] != m['fp']:
+                        ctx.fail('opaque', 'a public twin was produced for an opaque private key and has another fingerprint than the key', dict(case, step='twin', twin=tw[1], key=m['fp']))
+                    if m['body'] != 'REFUSED':
+                        ctx.fail('opaque', 'model: public body of an opaque private key is not refused', dict(case, step='twin', model=m['body'][:80]))
+                    # the refusal leaves the packet as it was, also after a copy
+                    ctx.expect_eq('opaque', 'a refused pubkey() changed the key packet', dict(case, step='twin'),
+                                  (outcome(lambda: str(p.fingerprint).lower()), outcome(lambda: bytes(p.__bytearray__()).hex())), (fp0, out0))
+                    ctx.expect_eq('opaque', 'model: history copy, pubkey of an opaque private key is not refused', dict(case, step='model-history'),
+                                  model_ops(d, ['C', 'K'], toks), ('REFUSED',))
+                    if tag == 5:
+                        def keylevel():
+                            k = pgpy.PGPKey.from_blob(raw)[0]
+                            return (k.is_public, str(k.fingerprint).lower(), outcome(lambda: k.pubkey), outcome(lambda: copy.copy(k).pubkey), str(k.fingerprint).lower())
+                        ctx.case('opaque', (alg, tag, data.hex(), 'pgpkey'))
+                        ctx.expect_eq('opaque', 'PGPKey.pubkey of an opaque private key is not refused with NotImplementedError', dict(case, step='pgpkey'),
+                                      outcome(keylevel), ('ok', (False, m['fp'], ('raise', 'NotImplementedError'), ('raise', 'NotImplementedError'), m['fp'])))
+    ctx.notes.append('outside the property (theorems C18_fp_opaque_private_characterised / C18_opaque_private_reemit_refuted): a PRIVATE key with algorithm id 0 / 21 hashes its '
+                     'whole stored material and re-emission appends an S2K usage octet under a stale header length; its pubkey() refuses (NotImplementedError, repair 3c1c8c6: '
+                     'no twin with another fingerprint any more, C18_fp_twin_preserved has no exception)')
+
+
+def suite_secret_layout(ctx, d, pgpy, names):
+    """secret key packets whose secret part the MODEL encoder writes (Model/KeyPackets.v sec_tail) in the layouts touched by repairs
+    7c47922 / 05bf06b: S2K usage 255 (the two checksum octets are the end of the ciphertext) for DSA, ElGamal and RSA, usage 254, and GNU
+    stubs (no secret / smartcard with an EMPTY and a non-empty serial).  PGPy must read the fields the model encoded, re-emit the same
+    octets, and report the fingerprint of the public packet (the secret part never reaches the hash)."""
+    from .keys import get
+    from pgpy.packet import Packet
+    rng = ctx.rng
+    subjects = []
+    for n in names:
+        for pkt0 in packets_of_key(get(n)):
+            subjects.append((n, pkt0, len(pkt0.keymaterial.__privfields__)))
+    # ElGamal has no corpus key: public numbers through the field setters, one secret integer (x)
+    o = outcome(mk_pub, pgpy, 16, False, 1136073600, p=(1 << 511) | rng.getrandbits(511) | 1, g=5, y=rng.getrandbits(500) + 2)
+    if o[0] == 'ok':
+        subjects.append(('elgamal-512', o[1], 1))
+    else:
+        ctx.skipped.append('secret-layout: ElGamal public packet cannot be built: %r' % (o,))
+    salt = bytes(range(0x31, 0x39))
+    layouts = [
+        ('usage255-aes128', 'ff', bytes([7, 3, 8]) + salt + bytes([96]) + bytes(range(16)), 40),
+        ('usage255-cast5', 'ff', bytes([3, 3, 2]) + salt + bytes([238]) + bytes(range(8)), 23),
+        ('usage254-aes256', 'fe', bytes([9, 3, 8]) + salt + bytes([96]) + bytes(range(16)), 60),
+        ('gnu-nosecret-255', 'ff', bytes([0, 101]) + b'\x00GNU' + bytes([1]), 0),
+        ('gnu-card-empty-serial-255', 'ff', bytes([0, 101]) + b'\x00GNU' + bytes([2, 0]), 0),
+        ('gnu-card-empty-serial-254', 'fe', bytes([0, 101]) + b'\x00GNU' + bytes([2, 0]), 0),
+        ('gnu-card-serial-254', 'fe', bytes([0, 101]) + b'\x00GNU' + bytes([2, 6]) + b'\xd2\x76\x00\x01\x24\x01', 0),
+    ]
+    for name, pkt0, npriv in subjects:
+        base = key_tokens(pkt0, public=True)
+        assert base.endswith(' pub')
+        pubfp = model_fp(d, base)['fp']
+        for lname, usage, s2k, nenc in layouts:
+            enc = bytes(rng.getrandbits(8) for _ in range(nenc))
+            toks = ' '.join([base[:-4], 'sec', usage, hx(s2k), hx(enc), '-', '%d' % npriv] + ['0'] * npriv)
+            mt, mb = d.call('body ' + toks).split(' ')
+            raw = unhx(d.call('pkt', mt, mb))
+            case = {'op': 'secret-layout', 'key': name, 'layout': lname, 'pkt': raw.hex()}
+            ctx.case('secret-layout', (name, lname, toks), sample={'key': name, 'layout': lname, 'tag': mt, 'secret_tail': mb[-2 * (len(s2k) + nenc + 1):]})
+            o = outcome(lambda: Packet(bytearray(raw)))
+            if o[0] != 'ok' or not hasattr(o[1].keymaterial, 's2k'):
+                ctx.fail('secret-layout', 'PGPy cannot read a secret key packet written by the model encoder', dict(case, impl=repr(o)[:200])); continue
+            p = o[1]
+            ctx.expect_eq('secret-layout', 'secret-part fields read by PGPy differ from the fields the model encoded', case, outcome(key_tokens, p), ('ok', toks))
+            ctx.expect_eq('secret-layout', 'PGPy re-emits a model-encoded secret key packet differently', case, outcome(lambda: bytes(p.__bytearray__()).hex()), ('ok', raw.hex()))
+            ctx.expect_eq('secret-layout', 'fingerprint of the secret packet is not the fingerprint of its public packet', case, outcome(lambda: str(p.fingerprint).lower()), ('ok', pubfp))
+            tw = outcome(lambda: (lambda q: (str(q.fingerprint).lower(), split_packets(bytes(q.__bytearray__()))[0][1].hex()))(p.pubkey()))
+            ctx.expect_eq('secret-layout', 'pubkey() of a model-encoded secret packet: fingerprint / body differ from the model twin', case, tw,
+                          ('ok', tuple(cached(d, 'twin ' + toks).split(' ')[:0:-1])))
 
 
 def suite_gpg(ctx, d, pgpy, names):
@@ -900,6 +1015,7 @@ def run(ctx):
         suite_kdf(ctx, d, pgpy, [n for n in names if n in ('ed25519', 'ed25519b', 'p256', 'p384', 'p521', 'secp256k1')])
         suite_fresh(ctx, d, pgpy, fresh)
         suite_opaque(ctx, d, pgpy)
+        suite_secret_layout(ctx, d, pgpy, [n for n in names if n in (('dsa1024', 'rsa1024', 'ed25519') if q else ('dsa1024', 'dsa2048', 'rsa1024', 'rsa2048', 'ed25519', 'p256', 'p384'))])
         suite_rsa_ids(ctx, d, pgpy, [n for n in names if n in (('rsa1024',) if q else ('rsa1024', 'rsa2048', 'rsa3072'))])
         suite_attach(ctx, d, pgpy, [('EdDSA', 'Ed25519'), ('ECDH', 'Curve25519'), ('ECDSA', 'NIST_P256')] + ([] if q else [('ECDH', 'NIST_P384'), ('RSAEncryptOrSign', 2048)]))
         suite_gpg(ctx, d, pgpy, [n for n in names if n in ('ed25519', 'p256', 'rsa1024')] if q else names)
@@ -918,8 +1034,13 @@ def replay(ctx, case):
         p = Packet(bytearray.fromhex(case['pkt']))
         if case.get('w') is not None and case.get('op') in ('time', 'tzenv'):
             p.created = case['w']
-        if int(p.pkalg) in (0, 21) and hasattr(p.keymaterial, 's2k'):
-            return False
+        if int(p.pkalg) in (0, 21):
+            # opaque material: a copy keeps fingerprint and octets; a private packet has no public half (NotImplementedError)
+            c = copy.copy(p)
+            if str(c.fingerprint) != str(p.fingerprint) or bytes(c.__bytearray__()) != bytes(p.__bytearray__()):
+                return True
+            if hasattr(p.keymaterial, 's2k'):
+                return outcome(p.pubkey) != ('raise', 'NotImplementedError')
         tag, body = exported_pub_body(p)
         return rfc_fp(body) != str(p.fingerprint).lower()
     except Exception:
